@@ -163,6 +163,10 @@ func Load(repo, overlayDir, goarch string) (*Ctx, error) {
 		if fn.Synthetic != "" && !strings.HasPrefix(fn.Synthetic, "instance of") {
 			continue
 		}
+		if fn.TypeParams().Len() > 0 && len(fn.TypeArgs()) == 0 {
+			// the uninstantiated body of a generic function: its instances are analysed instead
+			continue
+		}
 		add(fn)
 	}
 	sort.Slice(c.AllFuncs, func(i, j int) bool {
